@@ -468,7 +468,21 @@ class Function:
     @classmethod
     def create_task(cls, coro, ast_ctx=None):
         """Create a new task that runs a coroutine."""
-        return cls.hass.loop.create_task(cls.run_coro(coro, ast_ctx=ast_ctx))
+        task = cls.hass.loop.create_task(cls.run_coro(coro, ast_ctx=ast_ctx))
+        # known as ours from the start, so that task.cancel() works before the first step
+        cls.our_tasks.add(task)
+        task.add_done_callback(cls.task_forget)
+        return task
+
+    @classmethod
+    def task_forget(cls, task):
+        """Forget a finished task: a task cancelled before its first step never reaches run_coro."""
+        for name in cls.unique_task2name.pop(task, set()):
+            if cls.unique_name2task.get(name) is task:
+                del cls.unique_name2task[name]
+        cls.task2context.pop(task, None)
+        cls.task2cb.pop(task, None)
+        cls.our_tasks.discard(task)
 
     @classmethod
     def service_register(
